@@ -254,6 +254,10 @@ type FltResp struct {
 	Framing string `json:"framing"` // cl | chunked | eof
 	BodyLen int    `json:"body_len"`
 	Chunks  []int  `json:"chunks,omitempty"`
+	// Line (fault "none" only): how the origin writes its status line: "" = code and reason phrase; "no-reason" = the code
+	// is the last thing on the line ("HTTP/1.1 200"); "empty-reason" = code, a space, nothing. Servers do both, clients
+	// (and Go's) accept both; the reply is a complete, fault-free reply
+	Line string `json:"line,omitempty"`
 }
 
 type FltExch struct {
@@ -351,6 +355,9 @@ func genFltExch(t *rapid.T) FltExch {
 		x.Fault = "dial-timeout" // the real thing takes its time: one in three
 	}
 	x.Follow = rapid.IntRange(0, 2).Draw(t, "follow") != 0
+	if x.Fault == "none" && x.Method != "CONNECT" && rapid.IntRange(0, 2).Draw(t, "statusline") == 0 {
+		x.Resp.Line = rapid.SampledFrom([]string{"no-reason", "empty-reason"}).Draw(t, "statuslinekind")
+	}
 	return x
 }
 
@@ -408,6 +415,12 @@ func buildFltReply(x FltExch, vid string, id uint32) (raw []byte, body []byte, h
 	body = Payload(id, x.Resp.BodyLen)
 	var h bytes.Buffer
 	status := "HTTP/1.1 " + strconv.Itoa(x.Resp.Status) + " Scripted"
+	switch x.Resp.Line {
+	case "no-reason":
+		status = "HTTP/1.1 " + strconv.Itoa(x.Resp.Status)
+	case "empty-reason":
+		status = "HTTP/1.1 " + strconv.Itoa(x.Resp.Status) + " "
+	}
 	if x.Fault == "bad-status" {
 		// K > 0: a very long malformed line (an error text that quotes it grows with it)
 		status = "HTP/1.1 two-hundred OK"
@@ -817,6 +830,9 @@ func classifyC12(c C12Case) (bool, string, []string) {
 	}
 	if x.Fault == "bad-status" && x.K > 0 {
 		cls = append(cls, "long-malformed-line")
+	}
+	if x.Resp.Line != "" {
+		cls = append(cls, "status-line-"+x.Resp.Line)
 	}
 	nt := false
 	if x.Fault == "cut" || x.Fault == "rst" {
